@@ -74,7 +74,7 @@ EvalSeq(st, ss) == IF ss = << >> \/ ~OK(st) THEN st ELSE EvalSeq(EvalStmt(st, He
 (* counted loop: i from `i` while i # stop, step `step`; the loop variable is pushed on st.lv *)
 Iterate(st, i, stop, step, body) ==
   IF ~OK(st) \/ i = stop THEN st
-  ELSE IF (stop - i) \div step > MaxIter THEN Fault(st, "diverges")
+  ELSE IF (IF step > 0 THEN (stop - i) \div step ELSE (i - stop) \div (0 - step)) > MaxIter THEN Fault(st, "diverges")
   ELSE LET s1 == EvalSeq([st EXCEPT !.lv = Append(@, i)], body)
        IN  Iterate([s1 EXCEPT !.lv = st.lv], i + step, stop, step, body)
 
@@ -118,7 +118,9 @@ EvalStmt(st, s) ==
               ELSE IF Cmp(s.cmp, Val(a.v), Val(b.v)) THEN EvalSeq(st, s.body) ELSE st
     [] s.s = "loop" ->
          IF s.body = << >> THEN st
-         ELSE IF s.step <= 0 \/ s.start > s.stop \/ (s.stop - s.start) % s.step # 0 THEN Fault(st, "loop-precondition")
+         \* counting up or down: the compiled loop ends when the counter EQUALS stop
+         ELSE IF s.step = 0 \/ (s.step > 0 /\ (s.start > s.stop \/ (s.stop - s.start) % s.step # 0))
+                            \/ (s.step < 0 /\ (s.start < s.stop \/ (s.start - s.stop) % (0 - s.step) # 0)) THEN Fault(st, "loop-precondition")
          ELSE Iterate(st, s.start, s.stop, s.step, s.body)
     [] s.s = "foreach" ->
          IF s.body = << >> THEN st ELSE Iterate(st, 0, s.len, 1, s.body)
